@@ -155,7 +155,6 @@ func (d *dir) RepoGet(ctx context.Context, repoStr string) (Repo, error) {
 	}
 	dr.uploads = cache.New[string, *dirRepoUpload](uploadCacheOpts)
 	dr.wgBlock <- struct{}{}
-	d.repos.Set(repoStr, &dr)
 	statDir, err := os.Stat(dr.path)
 	if err == nil && statDir.IsDir() {
 		statIndex, errIndex := os.Stat(filepath.Join(dr.path, indexFile))
@@ -165,7 +164,9 @@ func (d *dir) RepoGet(ctx context.Context, repoStr string) (Repo, error) {
 			dr.exists = true
 		}
 	}
+	// finish setting up the repo and track this request before other goroutines (GC) can access the repo
 	dr.wg.Add(1)
+	d.repos.Set(repoStr, &dr)
 	return &dr, nil
 }
 
